@@ -65,12 +65,9 @@ class BaseShell(Shell, ABC):
     ) -> tuple[str, int]:
         output = ""
         while True:
-            try:
-                chunk = await asyncio.wait_for(
-                    self._reader.read(self.buffer_size), timeout=timeout
-                )
-            except asyncio.TimeoutError:
-                raise WorkflowExecutionException("Timeout waiting for command output")
+            chunk = await asyncio.wait_for(
+                self._reader.read(self.buffer_size), timeout=timeout
+            )
             if not chunk:
                 raise WorkflowExecutionException(
                     "Shell process terminated unexpectedly"
@@ -94,12 +91,9 @@ class BaseShell(Shell, ABC):
     async def _read_without_output(self, end_marker: str, timeout: int | None) -> None:
         output = ""
         while True:
-            try:
-                chunk = await asyncio.wait_for(
-                    self._reader.read(self.buffer_size), timeout=timeout
-                )
-            except asyncio.TimeoutError:
-                raise WorkflowExecutionException("Timeout discarding output")
+            chunk = await asyncio.wait_for(
+                self._reader.read(self.buffer_size), timeout=timeout
+            )
             if not chunk:
                 raise WorkflowExecutionException(
                     "Shell process terminated unexpectedly"
@@ -156,7 +150,8 @@ class BaseShell(Shell, ABC):
             except (BrokenPipeError, ConnectionResetError) as e:
                 await self.close()
                 raise WorkflowExecutionException(f"Shell pipe broken: {e}") from e
-            except asyncio.TimeoutError as e:
-                raise WorkflowExecutionException(
-                    f"Command timeout after {timeout}s"
-                ) from e
+            except asyncio.TimeoutError:
+                # The command is still running in the shell and its output has not been consumed:
+                # the shell cannot be reused, and the command must not be executed a second time
+                await self.close()
+                raise
